@@ -8,7 +8,7 @@ from . import extract as _extract
 class Fn:
     __slots__ = ("id", "crate", "kind", "file", "lo", "hi", "name", "parent", "vis", "arg_count",
                  "locals", "dbg", "blocks", "promoted", "raw", "names", "impl_self", "impl_adt",
-                 "impl_trait", "trait_item", "trait_default", "_preds", "_cache")
+                 "impl_trait", "trait_item", "trait_default", "_preds", "_cache", "absorbed_spans")
 
     def __init__(self, raw, crate):
         self.raw = raw
@@ -18,6 +18,7 @@ class Fn:
         self.file = raw["file"]
         self.lo = raw["lo"]
         self.hi = raw["hi"]
+        self.absorbed_spans = [tuple(x) for x in raw.get("absorbed_spans", [])]   # source ranges of helpers inlined into this function
         self.name = raw.get("name", "")
         self.parent = raw.get("parent")
         self.vis = raw.get("vis")
